@@ -469,8 +469,10 @@ def free_run(world, bodies, iterations=50):
         def note(self, *data): pass
     def runner(i):
         try:
-            try: bodies[i](_T(i)); k = 'ok'
-            except Exception as e: k = type(e).__name__
+            try:
+                r = bodies[i](_T(i))
+                k = 'ok' if not isinstance(r, dict) else ('%s%s' % (r.get('status'), '' if r.get('pony', True) else ' NON-PONY') + (':' + r['cls'] if r.get('cls') else ''))
+            except Exception as e: k = 'raised NON-PONY:' + type(e).__name__
             counts[k] = counts.get(k, 0) + 1
         finally:
             world.orm.core.local.db_session = None
